@@ -1,7 +1,7 @@
 SPECIFICATION Spec
 CONSTANTS
   NRs = {1,2,3,4}
-  Ns = {0,1,2,3,4,5}
+  Ns = {0,1,2,3,4}
   Vals = {0,1,3}
   Wts = {1,2}
   WDen = 1
